@@ -259,6 +259,13 @@ def chainTyOk : Ty → Bool
   | .int _ | .ptr => true
   | _ => false
 
+/-- `try_eval_const`: an operation that is undefined for its constant operands (division by zero, negative
+    shift amount, inf/nan to integer) is not folded -/
+def tryEvalConst (f : Func) (fuel : Nat) (o : Operand) : R (Option (Ty × ConstVal)) :=
+  match evalConst f fuel o with
+  | .ok r => .ok (some r)
+  | .error e => if e = "ZeroDivisionError" || e = "ValueError" || e = "OverflowError" then .ok none else .error e
+
 /-- body of the loop of `ConstantFolder.on_block` for the value named `d` -/
 def foldInstr (f : Func) (d : String) : R Func :=
   let fuel := (allNames f).length + 1
@@ -267,9 +274,11 @@ def foldInstr (f : Func) (d : String) : R Func :=
   | some (.const ..) => .ok f
   | some ins =>
     if isConst f fuel (.loc d) then do
-      let (t, c) ← evalConst f fuel (.loc d)
-      let n := freshName f (match ins with | .cast .. => "casted" | _ => "new_fold")
-      pure (subst (insertBefore f d (.const n t c)) d (.loc n))
+      match ← tryEvalConst f fuel (.loc d) with
+      | none => pure f
+      | some (t, c) =>
+        let n := freshName f (match ins with | .cast .. => "casted" | _ => "new_fold")
+        pure (subst (insertBefore f d (.const n t c)) d (.loc n))
     else
       match ins with
       | .binop _ t op a c2 =>
@@ -277,13 +286,14 @@ def foldInstr (f : Func) (d : String) : R Func :=
         | some (.binop _ _ op1 y c1) =>
           if (op == .add && op1 == .add || op == .sub && op1 == .sub) && chainTyOk t
              && isConst f fuel c1 && isConst f fuel c2 then do
-            let (ta, va) ← evalConst f fuel c1
-            let (tb, vb) ← evalConst f fuel c2
-            if ta ≠ tb then throw "AssertionError"
-            let v ← chainValue ta va vb
-            let n := freshName f "new_fold"
-            if t ≠ ta then throw "AssertionError"
-            pure (replaceInstr (insertBefore f d (.const n ta v)) d (.binop d t op y (.loc n)))
+            match ← tryEvalConst f fuel c1, ← tryEvalConst f fuel c2 with
+            | some (ta, va), some (tb, vb) =>
+              if ta ≠ tb then throw "AssertionError"
+              let v ← chainValue ta va vb
+              let n := freshName f "new_fold"
+              if t ≠ ta then throw "AssertionError"
+              pure (replaceInstr (insertBefore f d (.const n ta v)) d (.binop d t op y (.loc n)))
+            | _, _ => pure f
           else pure f
         | _ => pure f
       | _ => pure f
